@@ -37,6 +37,9 @@ func c05State() *presign7 {
 	pt := func(v uint64) curve.Point { return sc(v).ActOnBase() }
 	one, nonce := new(saferith.Int).SetUint64(1), new(saferith.Nat).SetUint64(3)
 	pks := map[party.ID]*paillier.PublicKey{"a": zk.ProverPaillierPublic, "b": zk.VerifierPaillierPublic, "c": zk.VerifierPaillierPublic}
+	// one ciphertext per key, shared by all table entries (the engine re-executes this set-up on every path)
+	encP, encV := zk.ProverPaillierPublic.EncWithNonce(one, nonce), zk.VerifierPaillierPublic.EncWithNonce(one, nonce)
+	cts := map[party.ID]*paillier.Ciphertext{"a": encP, "b": encV, "c": encV}
 	p1 := &presign1{Helper: helper, SecretECDSA: sc(5), SecretElGamal: sc(6), SecretPaillier: zk.ProverPaillierSecret, PublicKey: pt(50),
 		ECDSA: map[party.ID]curve.Point{}, ElGamal: map[party.ID]curve.Point{}, Paillier: pks, Pedersen: map[party.ID]*pedersen.Parameters{}, Message: []byte("m")}
 	p2 := &presign2{presign1: p1, K: map[party.ID]*paillier.Ciphertext{}, G: map[party.ID]*paillier.Ciphertext{}, GammaShare: one, KShare: sc(7),
@@ -52,13 +55,13 @@ func c05State() *presign7 {
 	for i, id := range c05IDs {
 		v := uint64(i + 1)
 		p1.ECDSA[id], p1.ElGamal[id], p1.Pedersen[id] = pt(10+v), pt(20+v), zk.Pedersen
-		p2.K[id], p2.G[id] = pks[id].EncWithNonce(one, nonce), pks[id].EncWithNonce(one, nonce)
+		p2.K[id], p2.G[id] = cts[id], cts[id]
 		p2.ElGamalK[id] = &elgamal.Ciphertext{L: pt(30 + v), M: pt(40 + v)}
 		p2.PresignatureID[id], p2.CommitmentID[id] = c05Fill(byte(v)), c05Fill(byte(16+v))
 		p3.DeltaShareBeta[id], p3.ChiShareBeta[id] = one, one
 		p3.DeltaCiphertext[id], p3.ChiCiphertext[id] = map[party.ID]*paillier.Ciphertext{}, map[party.ID]*paillier.Ciphertext{}
 		for _, k := range c05IDs {
-			p3.DeltaCiphertext[id][k], p3.ChiCiphertext[id][k] = pks[k].EncWithNonce(one, nonce), pks[k].EncWithNonce(one, nonce)
+			p3.DeltaCiphertext[id][k], p3.ChiCiphertext[id][k] = cts[k], cts[k]
 		}
 		p4.DeltaShareAlpha[id], p4.ChiShareAlpha[id] = one, one
 		p4.ElGamalChi[id] = &elgamal.Ciphertext{L: pt(80 + v), M: pt(90 + v)}
